@@ -142,7 +142,7 @@ fn observe_orders(d: usize) -> (usize, usize, bool) {
 
 pub fn run(tier: Tier) -> i32 {
     let mut rep = Report::new("C12", tier, "exploration");
-    rep.rule = "configuration grid, enumerated completely: call sets {3 small incl. missing / multiallelic / two contigs / extra fields, one of 2 600 records (~150 KiB, several 64 KiB BGZF blocks)} x container {vcf, vcf.gz, bcf, raw bcf} x BGZF layout (12: single block, one record per block, 1/7/64/4096/65280-byte blocks, empty block in front/middle/end, stored blocks, no EOF marker) x transport {path, stdin} (small call sets also: real pipe, FIFO by path, /dev/stdin; and ten file names) x --threads 1..16 x 2 repetitions (fresh process = fresh hash seeds) x 2 sample configurations; every run's stdout and exit status must equal the canonical run (plain VCF by path, 1 thread). L1: the same containers through the real reader construction with set_threads, and the hash-order observer. Non-trivial = compressed multi-block container with >=2 threads, or stdin transport.".into();
+    rep.rule = "configuration grid, enumerated completely: call sets {3 small incl. missing / multiallelic / two contigs / extra fields, one of 2 600 records (~150 KiB, several 64 KiB BGZF blocks)} x container {vcf, vcf.gz, bcf, raw bcf} x BGZF layout (12: single block, one record per block, 1/7/64/4096/65280-byte blocks, empty block in front/middle/end, stored blocks - for the large call set with first blocks of 8, 16, 32 and 64 KiB compressed size -, no EOF marker) x transport {path, stdin} (small call sets also: real pipe, FIFO by path, /dev/stdin; and ten file names) x --threads 1..16 x 2 repetitions (fresh process = fresh hash seeds) x 2 sample configurations; every run's stdout and exit status must equal the canonical run (plain VCF by path, 1 thread). L1: the same containers through the real reader construction with set_threads, and the hash-order observer. Non-trivial = compressed multi-block container with >=2 threads, or stdin transport.".into();
     let scratch = Scratch::new("c12");
     let smalls = small_call_sets();
     let big = big_call_set();
@@ -158,9 +158,10 @@ pub fn run(tier: Tier) -> i32 {
                 vec![Layout::Single]
             } else if is_big {
                 if tier.thorough() {
-                    vec![Layout::Single, Layout::Fixed(65280), Layout::Fixed(4096), Layout::PerUnit, Layout::EmptyMiddle(4096), Layout::NoEof(65280), Layout::Stored(65280)]
+                    vec![Layout::Single, Layout::Fixed(65280), Layout::Fixed(4096), Layout::PerUnit, Layout::EmptyMiddle(4096), Layout::NoEof(65280), Layout::Stored(8200), Layout::Stored(16400), Layout::Stored(32800), Layout::Stored(65280)]
                 } else {
-                    vec![Layout::Single, Layout::Fixed(65280), Layout::Fixed(4096), Layout::PerUnit]
+                    // stored (incompressible) blocks make the *compressed* size of the first block cross 8, 16, 32 and 64 KiB
+                    vec![Layout::Single, Layout::Fixed(65280), Layout::Fixed(4096), Layout::PerUnit, Layout::Stored(8200), Layout::Stored(16400), Layout::Stored(32800), Layout::Stored(65280)]
                 }
             } else {
                 all_layouts()
@@ -504,7 +505,7 @@ pub fn run(tier: Tier) -> i32 {
 
 fn layout_by_name(name: &str) -> Option<Layout> {
     let mut all = all_layouts();
-    all.extend([Layout::EmptyMiddle(4096), Layout::NoEof(65280), Layout::Stored(65280)]);
+    all.extend([Layout::EmptyMiddle(4096), Layout::NoEof(65280), Layout::Stored(8200), Layout::Stored(16400), Layout::Stored(32800), Layout::Stored(65280)]);
     all.into_iter().find(|l| l.name() == name)
 }
 
